@@ -86,8 +86,18 @@ class Registry:
     def cls(self, name, fields=None, bases=(), content=None, doc=""):
         self.classes[name] = ClassDecl(name, fields, bases, content, doc); return self.classes[name]
 
-    def contract(self, target, **kw):
-        c = Contract(target, **kw); self.contracts[c.qual] = c; return c
+    def contract(self, target, variant=None, **kw):
+        """variant: register a second contract of the same function for another static argument value; it is
+        verified as its own target '<qual>@<variant>' and chosen at call sites by the static arguments"""
+        c = Contract(target, **kw)
+        if variant:
+            c.variant = variant
+            self.contracts[c.qual + "@" + variant] = c
+            base = self.contracts.get(c.qual)
+            if base is not None:
+                base.variants = getattr(base, "variants", []) + [c]
+            return c
+        self.contracts[c.qual] = c; return c
 
     def specfun(self, name):
         def deco(fn): self.specfuns[name] = fn; return fn
